@@ -124,7 +124,8 @@ def near_gap(draw, scale=1.0):
         if draw(st.booleans()):
             gap = 2.0 ** (-draw(st.integers(7, 17)))
         else:
-            gap = draw(st.sampled_from((4.5e-6, 6e-6, 9e-6))) * scale
+            # multiples of the rounding unit of the threshold in use (1.5 .. 60 units)
+            gap = draw(st.sampled_from((1.5e-6, 3e-6, 4.5e-6, 6e-6, 9e-6, 2e-5, 6e-5))) * scale
         p = base + sign * gap
         players.append(PR)
         tl.append([(p, 1), (1 - p, 2)])
@@ -138,8 +139,10 @@ def cases(draw):
     fam = draw(st.sampled_from(("iso", "iso", "dup", "stopping", "any", "any", "near")))
     if fam == "near":
         if draw(st.booleans()):
-            theta = draw(st.sampled_from((1e-3, 1e-4, 1e-6, 1e-8)))
-            return dict(game=draw(near_gap(scale=theta / 1e-6)), api="solver", theta=theta)
+            # thresholds that are not powers of ten included: the number of digits is floor(-log10(threshold))
+            theta = draw(st.sampled_from((1e-3, 1e-4, 1e-6, 1e-8, 5e-7, 5e-3, 2e-6, 7e-5, 3.2e-4)))
+            unit = 10.0 ** (-abs(math.floor(math.log(theta, 10))))
+            return dict(game=draw(near_gap(scale=unit / 1e-6)), api="solver", theta=theta)
         g = draw(near_gap())
     elif fam == "iso":
         g = draw(isomorphic_tie())
@@ -200,6 +203,10 @@ def check_strategies(v, game, facts, pstar, phat, strat, theta, label, stopping)
             v.cls("T>300")
             return
         tolgap = theta * (float(T) + 1) + 10.0 ** (-digits)
+        if not facts.has_cycle and all(float(x).hex() == float(y).hex() for x, y in zip(pstar, phat)):
+            # loop-free game whose reported values are bit-exact: only the rounding unit limits what can be decided
+            tolgap = 1.05 * 10.0 ** (-digits)
+            v.cls("values_bit_exact")
     else:
         delta = max(abs(float(pstar[s]) - phat[s]) for s in range(n))
         if delta > 1e-4:
